@@ -35,7 +35,7 @@ MC(cc, k) ==
     [alg |-> cc.alg, order |-> cc.order, tol_on |-> (cc.tol # "zero"), ret |-> TRUE, normalize |-> cc.normalize,
      linesearch |-> cc.linesearch, callback |-> cc.callback, fixed |-> SeqToSet(cc.fixed), init |-> cc.init,
      cap |-> k, stagn |-> cc.stagn, algorithm |-> cc.algorithm, sparsity |-> cc.sparsity, mask |-> cc.mask,
-     sampled |-> cc.sampled]
+     sampled |-> cc.sampled, penalised |-> cc.penalised]
 
 WellFormed(e) ==
     /\ e.alg \in Algs
